@@ -31,7 +31,17 @@ def payloads(maxlen):
     for n in range(1, maxlen + 1):
         for c in itertools.product(META, repeat=n):
             out.append("".join(c))
+    # values that look as if they had been escaped already (entity and character references), next to live markup
+    # characters: "already escaped" is not a reason to let the rest of the value through
+    for n in range(1, maxlen + 1):
+        for c in itertools.product(TOKENS, repeat=n):
+            v = "".join(c)
+            if "&" in v and v not in out:
+                out.append(v)
     return out
+
+
+TOKENS = ["&amp;", "&#38;", "&lt;", "&quot;", "&#x22;", "&nosuch;", '"', "<b>", ">", "' on='", "a"]
 
 
 # templates where a context value reaches text, an attribute, a repeat item, a define, a string: expression, a macro slot
@@ -120,6 +130,13 @@ PY_POSITIONS = [
     '<div tal:content="PYTHON: canary.hit()">x</div>',
     '<div tal:content="python:canary.hit()">x</div>',
     '<div tal:content="?pyvar">x</div>',
+    # expressions that BIND a name while they are evaluated: the name must not survive in the caller's context
+    '<div tal:content="python: (leak := canary.hit())">x</div><i tal:content="leak | string:no-leak">y</i>',
+    '<div tal:condition="python: (leak := canary.hit())">x</div><i tal:content="leak | string:no-leak">y</i>',
+    '<div tal:define="w python: (leak := canary.hit())">x</div><i tal:content="leak | w | string:no-leak">y</i>',
+    '<ul><li tal:repeat="it python: (leak := [canary.hit()])" tal:content="python: (inner := it)">x</li></ul><i tal:content="leak | inner | it | string:no-leak">y</i>',
+    '<div tal:attributes="title python: [leak := canary.hit()][0]">x</div><i tal:content="leak | string:no-leak">y</i>',
+    '<div tal:content="python: (v := canary.hit())">x</div><i tal:content="v">y</i>',
 ]
 
 
@@ -128,11 +145,21 @@ def check_python(idx):
     out = []
     for allow in (0, 1):
         c = Canary()
+        leftover = None
         try:
-            got, _ = expand_with(tpl, "v", allow_python=allow, extra={"canary": c, "pyvar": "python: canary.hit()"})
+            got, ctx = expand_with(tpl, "v", allow_python=allow, extra={"canary": c, "pyvar": "python: canary.hit()"})
+            # the context the caller gets back: no locals, no scopes, the globals it put there (plus explicit global defines)
+            glob = {k: v for k, v in ctx.globals.items() if k not in ("attrs", "g")}
+            exp = {"v": "v", "canary": c, "pyvar": "python: canary.hit()"}
+            if ctx.locals or ctx.localStack or ctx.repeatStack or ctx.repeatMap:
+                leftover = "locals %r, scopes %d, repeats %r" % (dict(ctx.locals), len(ctx.localStack), sorted(ctx.repeatMap))
+            elif set(glob) - set(simpleTALES.Context().globals) - {"seq", "m", "macros"} != set(exp) or any(glob[k] is not exp[k] and glob[k] != exp[k] for k in exp):
+                leftover = "globals %r" % sorted((k, repr(glob[k])[:30]) for k in glob if k not in ("seq", "m", "macros") and k not in simpleTALES.Context().globals)
         except Exception as e:  # noqa
             got = "EXC %s" % e
         out.append((c.hits, got))
+        if leftover:
+            return ("context-not-restored", "after expanding %r (Python paths %s) the caller's context holds %s" % (tpl, "on" if allow else "off", leftover)), c.hits
     (h0, g0), (h1, g1) = out
     if h0:
         return ("python-evaluated", "with Python paths disabled %r evaluated the expression %d time(s): %r" % (tpl, h0, g0)), h1
@@ -460,7 +487,7 @@ def run(ck):
     nb = p.extra.get("python_positions_not_biting", 0)
     if nb:
         ck.notes.append("%d python: positions were not evaluated even with Python paths enabled (they prove nothing about the gate)" % nb)
-    ck.rule = ("(1) %d escaping templates x all values of <= %d characters over %r; (2) %d positions of a python: expression with a side-effect canary, Python paths off and on; (3) %d TAL-free documents from a grammar of %d leaves x %d wrappers, pairs and three-deep nestings; "
+    ck.rule = ("(1) %d escaping templates x all values of <= %d characters over %r and of as many tokens over entity/character references mixed with quotes and tags (TOKENS); (2) %d positions of a python: expression with a side-effect canary, Python paths off and on; (3) %d TAL-free documents from a grammar of %d leaves x %d wrappers, pairs and three-deep nestings; "
                "(4) context snapshot before/after %d templates of the C17 families; (5) a TAL page with side-effecting python: expressions served by the real server under every history of <= 3 allowpythonpath settings in one process; distinct = (part, template/position, verdict)" % (len(ESC_TEMPLATES), 3 if ck.tier == "thorough" else 2, META, len(PY_POSITIONS), len(dl), len(DOC_LEAVES), len(DOC_WRAPS), len(ctx_t)))
     ck.bounds = {"payload_length": 3 if ck.tier == "thorough" else 2, "documents": len(dl), "context_templates": len(ctx_t)}
     ck.assumptions = ["HTML boolean attributes x and x=\"x\" are equivalent; element and attribute names are case-insensitive; the engine-owned builtin 'attrs' is not a caller variable",
